@@ -737,7 +737,8 @@ func (fc *FuncCtx) evalUnary(n *ast.UnaryExpr, st *State) *Value {
 		}
 		fc.unsupp(n, "address-of %T", inner)
 	case token.ARROW:
-		fc.unsupp(n, "channel receive")
+		ch := fc.eval(n.X, st)
+		return fc.chanOp("recv", n, st, ch, fc.info.TypeOf(n.X), nil)[0]
 	}
 	fc.unsupp(n, "unary %s", n.Op)
 	return nil
